@@ -526,7 +526,32 @@ func recognise(c Case, b *built, f *finding) string {
 	if os.Getenv("VERIF_C13_NORECOGNISE") != "" {
 		return "" // debugging aid: report catalogued mechanisms under their clause signature
 	}
-	clause := strings.TrimPrefix(strings.TrimPrefix(strings.TrimPrefix(f.Clause, "after-close-"), "written-"), "referrer-")
+	if i := strings.Index(f.Clause, "apply-panic@"); i >= 0 {
+		frame := f.Clause[i+len("apply-panic@"):]
+		noCreated := false
+		hists := [][]HistSpec{}
+		for _, im := range c.Images {
+			hists = append(hists, im.History)
+		}
+		if c.Base != nil {
+			hists = append(hists, c.Base.OldHist, c.Base.NewHist)
+		}
+		for _, hs := range hists {
+			for _, h := range hs {
+				noCreated = noCreated || h.NoCreated
+			}
+		}
+		// a history entry without the (optional) created field is dereferenced
+		if noCreated && (strings.HasPrefix(frame, "mod/config.go") || strings.HasPrefix(frame, "mod/manifest.go")) {
+			return "apply-panic-history-entry-without-created"
+		}
+		// a manifest without an image config (artifact): dm.config is nil and dereferenced
+		if c.Artifact != nil && strings.HasPrefix(frame, "mod/layer.go") {
+			return "apply-panic-manifest-without-image-config"
+		}
+		return ""
+	}
+	clause := strings.TrimPrefix(strings.TrimPrefix(strings.TrimPrefix(strings.TrimPrefix(f.Clause, "chain-"), "after-close-"), "written-"), "referrer-")
 	isFileStep := func(k string) bool { return fileStepKinds[k] }
 	switch clause {
 	case "index-entry-data-mismatch":
